@@ -400,6 +400,16 @@ def run(ctx):
     ctx.run_clause("C14.f", lambda c: c14f(c, prog))
     # "stores are addressed by the id": the id picks a column family / keyspace together with the column's KIND; every site of
     # one family has to ask for the same kind, else one id names two stores (C11.d's rule, both backends), evaluated as C14.g
+    # "distinct query keys receive distinct query identifiers": the key half of a QueryID is the key's stable hash, so the
+    # framing clauses of C13.a (lengths before repetitions and raw byte runs, a prefix written for every length) are
+    # necessary conditions here too; evaluated as C14.h
+    from . import C13
+    impls13 = C13.hash_impls(prog)
+    ctx.alias = {"C13.a": "C14.h"}
+    ctx.run_clause("C14.h", lambda c: C13.c13a(c, impls13))
+    ctx.run_clause("C14.h", lambda c: C13.c13a_raw(c, prog))
+    ctx.run_clause("C14.h", lambda c: C13.c13a_prefix(c, prog))
+    ctx.alias = {}
     if not ctx.key_prefix:
         from . import C11
         ctx.alias = {"C11.d": "C14.g"}
